@@ -26,6 +26,9 @@ type RefDealCase struct {
 	Silent int    `json:"silent"` // qual: a participant that is not instantiated (the root of shape "root" is placed at its point); -1: none
 	Order  int    `json:"order"`  // 0: vector first, 1: shares first, 2: interleaved per receiver
 	Seed   int64  `json:"seed"`
+	// a BYZANTINE reference dealer: the vector commits to P (of the given shape), the shares and answers come from a polynomial
+	// related to P: div-x (P/x, needs a_0 = 0) | mul-x | shift-1 (P(x-1)) | shift+1 | neg | plus-c | double | reverse; "": honest
+	Relation string `json:"relation"`
 	// prescribed by specs/dkg/RefDealing.tla
 	Outcome       string `json:"outcome"`       // keys | fail
 	IdentityShare int    `json:"identityShare"` // the participant whose public key share is the identity key, or -1
@@ -124,6 +127,63 @@ func shapedPoly(shape string, t int, rootAt int, rng *rand.Rand) refPoly {
 	return refPoly{c}
 }
 
+// relPoly: the polynomial a Byzantine reference dealer takes its shares from
+func relPoly(p refPoly, rel string) refPoly {
+	t := len(p.coef) - 1
+	c := make([]*big.Int, t+1)
+	for i := range c {
+		c[i] = new(big.Int)
+	}
+	binom := func(n, k int) *big.Int { return new(big.Int).Binomial(int64(n), int64(k)) }
+	switch rel {
+	case "div-x":
+		for i := 0; i < t; i++ {
+			c[i].Set(p.coef[i+1])
+		}
+	case "mul-x":
+		for i := 1; i <= t; i++ {
+			c[i].Set(p.coef[i-1])
+		}
+	case "shift-1", "shift+1": // Q(x) = P(x -/+ 1)
+		sign := int64(1)
+		if rel == "shift-1" {
+			sign = -1
+		}
+		for k := 0; k <= t; k++ {
+			for j := 0; j <= k; j++ { // a_k (x + s)^k = sum_j a_k C(k,j) s^(k-j) x^j
+				term := new(big.Int).Mul(p.coef[k], binom(k, j))
+				if (k-j)%2 == 1 && sign < 0 {
+					term.Neg(term)
+				}
+				c[j].Add(c[j], term)
+			}
+		}
+	case "neg":
+		for i := range c {
+			c[i].Neg(p.coef[i])
+		}
+	case "plus-c":
+		for i := range c {
+			c[i].Set(p.coef[i])
+		}
+		c[0].Add(c[0], big.NewInt(1))
+	case "double":
+		for i := range c {
+			c[i].Lsh(p.coef[i], 1)
+		}
+	case "reverse":
+		for i := range c {
+			c[i].Set(p.coef[t-i])
+		}
+	default:
+		return p
+	}
+	for i := range c {
+		c[i].Mod(c[i], ref.R)
+	}
+	return refPoly{c}
+}
+
 type RefDealResult struct {
 	ID         string      `json:"id"`
 	Violations []Violation `json:"violations"`
@@ -149,6 +209,15 @@ func RunRefDeal(c RefDealCase) (res RefDealResult) {
 	}
 	rng := rand.New(rand.NewSource(c.Seed))
 	poly := shapedPoly(c.Shape, c.T, c.Silent, rng)
+	// the library's own dealer guarantees a_0 != 0 and a_t != 0 (dkg_feldmanvss.go: generateFrPolynomial); a polynomial without one of
+	// them is dealt consistently but is not one an honest dealer produces: receivers may accept it or disqualify its dealer, as long
+	// as they all do the same and the keys of those who accept are the images of the qualified vectors
+	honestShape := poly.coef[0].Sign() != 0 && poly.coef[c.T].Sign() != 0
+	sharePoly := relPoly(poly, c.Relation)
+	byzantine := c.Relation != ""
+	if byzantine {
+		honestShape = false
+	}
 	// the real participants
 	var real []int
 	for i := 0; i < c.N; i++ {
@@ -177,8 +246,15 @@ func RunRefDeal(c RefDealCase) (res RefDealResult) {
 	}
 	// does some real receiver get a zero share?  Then the dealing is not acceptable to it (a zero share is malformed): skip
 	for _, m := range real {
-		if poly.eval(int64(m+1)).Sign() == 0 {
+		if sharePoly.eval(int64(m+1)).Sign() == 0 {
 			return
+		}
+	}
+	if byzantine { // the shares must really be off the committed polynomial at every real receiver
+		for _, m := range real {
+			if sharePoly.eval(int64(m+1)).Cmp(poly.eval(int64(m+1))) == 0 {
+				return
+			}
 		}
 	}
 	hand := func(to int, from int, bcast bool, data []byte) {
@@ -202,10 +278,10 @@ func RunRefDeal(c RefDealCase) (res RefDealResult) {
 		}
 		if first {
 			hand(m, c.Dealer, true, vectors[c.Dealer])
-			hand(m, c.Dealer, false, poly.shareMsg(m))
+			hand(m, c.Dealer, false, sharePoly.shareMsg(m))
 		}
 		if second {
-			hand(m, c.Dealer, false, poly.shareMsg(m))
+			hand(m, c.Dealer, false, sharePoly.shareMsg(m))
 			hand(m, c.Dealer, true, vectors[c.Dealer])
 		}
 	}
@@ -229,14 +305,16 @@ func RunRefDeal(c RefDealCase) (res RefDealResult) {
 						realShares[s][e.dest] = e.data
 					}
 					if e.bcast && len(e.data) == 2 && e.data[0] == 2 && int(e.data[1]) == c.Dealer {
-						add("C08", "HonestDealerQualified", fmt.Sprintf("participant %d complains against the protocol-following reference dealer", s))
+						if honestShape {
+							add("C08", "HonestDealerQualified", fmt.Sprintf("participant %d complains against the protocol-following reference dealer", s))
+						}
 						for _, r := range real {
 							if r != s {
 								hand(r, s, true, e.data)
 							}
 						}
 						for _, r := range real {
-							hand(r, c.Dealer, true, poly.answerMsg(s))
+							hand(r, c.Dealer, true, sharePoly.answerMsg(s))
 						}
 						continue
 					}
@@ -268,8 +346,30 @@ func RunRefDeal(c RefDealCase) (res RefDealResult) {
 	}
 	for _, m := range real {
 		for _, cb := range procs[m].all {
-			if cb[2].(int) == c.Dealer {
+			if cb[2].(int) == c.Dealer && honestShape {
 				add("C08", "NoHonestBlamed", fmt.Sprintf("participant %d raised %v against the protocol-following reference dealer", m, cb))
+			}
+		}
+	}
+	// is the reference dealer disqualified (allowed only for a shape an honest dealer never produces)?  All receivers must agree.
+	refDisq := map[int]bool{}
+	for _, m := range real {
+		for _, cb := range procs[m].all {
+			if cb[0] == "disq" && cb[2].(int) == c.Dealer {
+				refDisq[m] = true
+			}
+		}
+	}
+	for _, m := range real {
+		if refDisq[m] != refDisq[real[0]] {
+			add("C07", "Agreement", fmt.Sprintf("participants %d and %d disagree on the disqualification of dealer %d", real[0], m, c.Dealer))
+		}
+	}
+	dealerOut := len(real) > 0 && refDisq[real[0]]
+	if byzantine {
+		for _, m := range real {
+			if !refDisq[m] {
+				add("C08", "BadDealerDisqualified", fmt.Sprintf("the dealer's shares and answers are off the polynomial its vector commits to (relation %s), yet participant %d does not disqualify it", c.Relation, m))
 			}
 		}
 	}
@@ -278,10 +378,19 @@ func RunRefDeal(c RefDealCase) (res RefDealResult) {
 	if c.Proto == "jf" {
 		dealers = nil
 		for d := 0; d < c.N; d++ {
-			if d != c.Silent {
+			if d != c.Silent && !(d == c.Dealer && dealerOut) {
 				dealers = append(dealers, d)
 			}
 		}
+	}
+	if c.Proto == "qual" && dealerOut {
+		// the single dealer is disqualified by everybody: every End() must fail with a DKG failure
+		for _, m := range real {
+			if _, _, _, err := objs[m].End(); err == nil || !crypto.IsDKGFailureError(err) {
+				add("C07", "Agreement", fmt.Sprintf("the dealer is disqualified, yet End() of participant %d returned %v", m, err))
+			}
+		}
+		return
 	}
 	parsed := map[int][]ref.G2{}
 	for _, d := range dealers {
@@ -333,7 +442,7 @@ func RunRefDeal(c RefDealCase) (res RefDealResult) {
 		}
 	}
 	groupIsIdentity := expectedPK(0).Inf
-	if c.Outcome != "" && groupIsIdentity != (c.Outcome == "fail") {
+	if c.Outcome != "" && !dealerOut && groupIsIdentity != (c.Outcome == "fail") {
 		panic(fmt.Sprintf("harness: the reference group key contradicts the specification (identity: %v, prescribed outcome %s)", groupIsIdentity, c.Outcome))
 	}
 	if c.Outcome != "" && c.IdentityShare >= 0 && !expectedPK(int64(c.IdentityShare+1)).Inf {
@@ -381,7 +490,7 @@ func RunRefDeal(c RefDealCase) (res RefDealResult) {
 		if !ref.G2Gen.Mul(new(big.Int).SetBytes(sk.Encode())).Equal(expectedPK(int64(m + 1))) {
 			add("C07", "PrivateMatchesPublicShare", fmt.Sprintf("participant %d: private share times the generator is not its public share (reference arithmetic)", m))
 		}
-		if c.Proto == "qual" && !bytes.Equal(sk.Encode(), scalar32(poly.eval(int64(m+1)))) {
+		if c.Proto == "qual" && !byzantine && !bytes.Equal(sk.Encode(), scalar32(poly.eval(int64(m+1)))) {
 			add("C07", "PrivateMatchesPublicShare", fmt.Sprintf("participant %d: the private share is not the share the dealer sent", m))
 		}
 	}
